@@ -247,6 +247,68 @@ func vfC19(c *hx.Ctx) {
 		c.UnitBudget = 10 * time.Second
 		c.Explore("fec-at-the-peer-only/"+side, vfPairParams(cf, 0), 0, vfPairRun(cf, 0, body))
 	}
+	// (c'') an out-of-band message as the LAST thing handed to the transmit pipeline: what was written just before must not
+	// wait for it, and a Close right afterwards still sends the tail of the stream
+	for _, ciph := range []string{"", "aes-gcm"} {
+		cf := base
+		cf.Cipher = ciph
+		cf.Wire = false
+		cf.K = 0
+		body := func(p *vfPair) {
+			var slog vfOOBLog
+			var wg vrt.WaitGroup
+			wg.Add(1)
+			m1, m2 := vfPayload(6, 300, 0), vfPayload(6, 500, 300)
+			vrt.Go("app-server", func() {
+				defer wg.Done()
+				p.listener.SetReadDeadline(vrt.Now().Add(time.Second))
+				s, err := p.listener.AcceptKCP()
+				if err != nil {
+					p.bad("C19:stream-delayed-by-a-trailing-oob", "nothing reached the listener within 1 s of a Write followed by SendOOB on a loss-free path: %v", err)
+					return
+				}
+				p.mu.Lock()
+				p.server = s
+				p.mu.Unlock()
+				p.tune(s)
+				s.SetOOBHandler(slog.handler())
+				buf := make([]byte, 4096)
+				for i, m := range [][]byte{m1, m2} {
+					var got []byte
+					t0 := vrt.NowNS()
+					for len(got) < len(m) {
+						s.SetReadDeadline(vrt.Now().Add(2 * time.Second))
+						n, err := s.Read(buf)
+						if err != nil {
+							p.bad("C19:stream-tail-lost-after-a-trailing-oob", "message %d written before an out-of-band message (and a Close) never arrived: %v", i+1, err)
+							return
+						}
+						got = append(got, buf[:n]...)
+					}
+					if !bytes.Equal(got, m) {
+						p.bad("C19:stream-corrupted", "message %d differs", i+1)
+						return
+					}
+					if i == 0 {
+						if d := time.Duration(vrt.NowNS() - t0); d > 60*time.Millisecond {
+							p.bad("C19:stream-delayed-by-a-trailing-oob", "on a loss-free 5 ms path the message written just before an out-of-band message took %s to become readable", d)
+							return
+						}
+					}
+				}
+			})
+			p.client.Write(m1)
+			p.client.SendOOB([]byte("first"))
+			vrt.Sleep(300 * time.Millisecond)
+			p.client.Write(m2)
+			p.client.SendOOB([]byte("bye"))
+			p.client.Close()
+			wg.Wait()
+			p.teardown()
+		}
+		c.UnitBudget = 10 * time.Second
+		c.Explore("oob-last-in-a-burst/cipher="+ciph, vfPairParams(cf, 1), hx.Pick(c, 1, 2), vfPairRun(cf, 1, body))
+	}
 	// (d) two clients on one listener, (e) new conversation on the same socket while old OOB is in flight
 	for _, scen := range []string{"two-clients", "reconnect-same-address", "reconnect-listener-side"} {
 		scen := scen
